@@ -40,8 +40,8 @@ META["C01"] = {
         "no handler faults in this family (they belong to C08)",
     ],
     "probes": ["multi+2", "partial-auto", "reader-inside-final-handler", "reader-inside-transition", "getter-with-scheduling-points"],
-    "level_text": "seeded search over schemas, histories and reader/mutator interleavings; every reader step cross-checks all views, a per-state ledger checks monotonicity over everything observed, every transition is checked against the documented tick step",
-    "level_note": "trusts testing/synctest and the recording tracer; preemption only at scheduling points",
+    "level_text": "seeded search over schemas, histories and reader/mutator interleavings; every reader step cross-checks all views (or, for String/StringAll called with scheduling points at their lock acquisitions, the one answer against itself), a per-state ledger checks monotonicity over everything observed, every transition is checked against the documented tick step",
+    "level_note": "trusts testing/synctest and the recording tracer; preemption only at scheduling points (hooks, harness yields, handler bodies, read-lock acquisitions of the two composite getters)",
 }
 
 META["C14"] = {
